@@ -1,4 +1,5 @@
 import RedisVerif.Lemmas.RedisStep
+import RedisVerif.Model.RedisKeys
 
 /-!
   LOCALITY of the M7 reference executor (`Model/Redis.lean`, the model C01 ties to the real
@@ -392,28 +393,6 @@ theorem local_execExists (ks : List Nat) : LocalOn ks (fun s => execExists s ks)
   rw [this]
 
 /-! ### every command that names its keys -/
-
-/-- the keys a command names; `none` for the commands whose reply / effect is a function of the
-    whole keyspace (KEYS, DBSIZE, FLUSHDB, FLUSHALL, RANDOMKEY) -/
-def cmdKeys : Cmd → Option (List Nat)
-  | .get k | .set k _ _ _ _ | .setnx k _ | .append k _ | .getset k _ | .strlen k
-  | .getrange k _ _ | .setrange k _ _ | .getex k _ | .getdel k
-  | .incr k | .decr k | .incrby k _ | .decrby k _
-  | .type k
-  | .expire k _ _ | .pexpire k _ _ | .expireat k _ _ | .pexpireat k _ _
-  | .ttl k | .pttl k | .expiretime k | .pexpiretime k | .persist k
-  | .lpush k _ | .rpush k _ | .lpop k | .rpop k | .llen k | .lindex k _ | .lrange k _ _
-  | .lset k _ _ | .ltrim k _ _
-  | .sadd k _ | .srem k _ | .smembers k | .sismember k _ | .scard k | .spop k _ _
-  | .hset k _ | .hget k _ | .hdel k _ | .hgetall k | .hkeys k | .hvals k | .hlen k
-  | .hexists k _ | .hincrby k _ _
-  | .zadd k _ _ | .zrem k _ | .zrange k _ _ _ | .zrevrange k _ _ _ | .zscore k _ | .zrank k _
-  | .zcard k | .zcount k _ _ | .zrangebyscore k _ _ _ _
-  | .sort k none => some [k]
-  | .rename a b | .renamenx a b | .rpoplpush a b | .lmove a b _ _ | .sort a (some b) => some [a, b]
-  | .mget ks | .del ks | .exists ks => some ks
-  | .mset kvs | .msetnx kvs => some (kvs.map (·.1))
-  | .keys | .dbsize | .flushdb | .flushall | .randomkey _ => none
 
 /-- **locality of the reference executor**: every command that names keys reads and writes only
     those keys -/
